@@ -75,6 +75,25 @@ def bool_atom(t):
     return (atom, vf, vt) if neg else (atom, vt, vf)
 
 
+def _eq_literals(a, b, positive, depth=0):
+    """a == b (or != when not positive) for two literal Option / Result / .. values: a bool constant when the variants
+    differ or carry nothing, else the comparison of the payloads; None when a side is not such a literal."""
+    def lit(t):
+        return t[0] == "agg" and isinstance(t[1], tuple) and t[1][0] == "adt" and t[1][1] in P.STD_SUM_TYPES and len(t[2]) <= 1
+    if depth > 3 or not (lit(a) and lit(b)) or a[1][1] != b[1][1]:
+        return None
+    if a[1][2] != b[1][2]:
+        return ("const", None, not positive, "bool")
+    if not a[2]:
+        return ("const", None, positive, "bool")
+    pa, pb = a[2][0][1], b[2][0][1]
+    inner = _eq_literals(pa, pb, positive, depth + 1)
+    if inner is not None:
+        return inner
+    eq = ("call", "core::cmp::PartialEq::eq", -1, (pa, pb))
+    return eq if positive else ("unop", "Not", eq)
+
+
 def _bool_atom_pos(t):
     if t[0] == "const" and isinstance(t[2], bool):
         return ("const", t[2], None)
@@ -706,6 +725,22 @@ class GEA:
             t0 = t0[2]
         if t0[0] == "phi":
             term = self.resolve_phis(term, val)
+            t0 = term
+            while t0[0] == "unop" and t0[1] == "Not":
+                t0 = t0[2]
+        if t0[0] == "call" and t0[1] in EQ_CALLEES and len(t0[3]) == 2:
+            # `a == b` on Option / Result values of which one was built on another path (`known(id) == Some(vid)` with
+            # `known` = "nil means None"): under the definitions this valuation selects both sides are literals, and the
+            # comparison is the comparison of their variants and payloads
+            # (only the value bound to a local is read under the valuation; variables inside it -- a loop variable --
+            # stay symbolic, as in every other atom)
+            red = _eq_literals(self.resolve_root(t0[3][0], val), self.resolve_root(t0[3][1], val), EQ_CALLEES[t0[1]])
+            if red is not None:
+                neg_ = False
+                t1 = term
+                while t1[0] == "unop" and t1[1] == "Not":
+                    neg_, t1 = not neg_, t1[2]
+                term = ("unop", "Not", red) if neg_ else red
         false_t = None
         for a in t["arms"]:
             if a["v"] == "0":
@@ -737,6 +772,16 @@ class GEA:
                     out.append((tg, merged))
             return out
         ba = self.norm_bool(term)
+        if ba is not None and ba[0] not in ("const", "setatom") and ba[0][0] == "VARIANT" and ba[0][1][0] in ("phi", "sum"):
+            # `x.is_none()` / `x.is_some()` on a value bound to a local on another path: the definition selected in this
+            # valuation says which variant it is (as for a `match` on the local)
+            r = self.resolve_root(ba[0][1], val) if ba[0][1][0] == "phi" else ba[0][1]
+            if r[0] == "agg" and isinstance(r[1], tuple) and r[1][0] == "adt":
+                vname = norm_variant_name(r[1][2]) if r[1][1] in P.STD_SUM_TYPES else r[1][2]
+                if vname in (ba[1], ba[2]) and ba[1] != ba[2]:
+                    return [((true_t if vname == ba[1] else false_t), val)]
+            elif r[0] == "call" and r[1] == P.FROM_RESIDUAL and "err" in (ba[1], ba[2]) and ba[1] != ba[2]:
+                return [((true_t if ba[1] == "err" else false_t), val)]
         if ba is not None and ba[0] not in ("const", "setatom") and ba[0] not in self.atoms:
             self.atoms[ba[0]] = [bb]
         if ba is None:
